@@ -530,6 +530,11 @@ def _root_name(e):
 def elem_of(seq):
     if seq[0] == "call" and seq[1] == "range":
         return ("rangevar", seq[2])
+    if seq[0] == "call" and seq[1] in ("itertools.count", "count"):
+        a = list(seq[2]) + [v for k, v in seq[3]]
+        start = a[0][1] if a and a[0][0] == "const" else (0 if not a else a[0])
+        step = a[1][1] if len(a) > 1 and a[1][0] == "const" else 1
+        return ("counter", start, step)
     if seq[0] in ("list", "tuple", "set") and seq[1]:
         u = []
         for x in seq[1]:
